@@ -4,7 +4,7 @@ mod square;
 mod undirected;
 mod undirected_weighted;
 mod utility;
-use crate::{Error, Graph};
+use crate::{Error, ErrorKind, Graph};
 use directed::get_directed_triangles_and_degrees;
 use directed_weighted::get_directed_weighted_triangles_and_degrees;
 use std::collections::HashMap;
@@ -74,6 +74,7 @@ where
     A: Clone + Send + Sync,
 {
     graph.ensure_not_multi_edges()?;
+    ensure_node_names_exist(graph, node_names)?;
     match graph.specs.directed {
         true => match weighted {
             true => {
@@ -121,6 +122,7 @@ where
 {
     graph.ensure_undirected()?;
     graph.ensure_not_multi_edges()?;
+    ensure_node_names_exist(graph, node_names)?;
     let tads = get_triangles_and_degrees(graph, node_names);
     Ok(tads
         .into_iter()
@@ -129,6 +131,21 @@ where
 }
 
 pub use square::square_clustering;
+
+/// Returns an `Err` if `node_names` contains a name that is not in the `graph`.
+fn ensure_node_names_exist<T, A>(graph: &Graph<T, A>, node_names: Option<&[T]>) -> Result<(), Error>
+where
+    T: Hash + Eq + Clone + Ord + Display + Send + Sync,
+    A: Clone + Send + Sync,
+{
+    if node_names.is_some() && !graph.has_nodes(node_names.unwrap()) {
+        return Err(Error {
+            kind: ErrorKind::NodeNotFound,
+            message: "One or more of the specified nodes were not found in the graph".to_string(),
+        });
+    }
+    Ok(())
+}
 
 /**
 Returns a graph's transitivity, the fraction of all possible triangles present.
@@ -198,6 +215,7 @@ where
 {
     graph.ensure_undirected()?;
     graph.ensure_not_multi_edges()?;
+    ensure_node_names_exist(graph, node_names)?;
     let tads = get_triangles_and_degrees(graph, node_names);
     Ok(tads
         .into_iter()
